@@ -34,11 +34,18 @@ Definition same_unit (p : cunit * GenUnits.gunit) : bool :=
   && String.eqb (cu_name (fst p)) (GenUnits.u_singular (snd p))
   && String.eqb (cu_plural (fst p)) (GenUnits.u_plural (snd p))
   && close (cu_mult (fst p)) (GenUnits.u_mult (snd p)).
+(* Python's NFKD/ASCII reduction of the built-in names that are not ASCII (hand-written; if the
+   built-in table gains another such name, [registration_matches_live_true] stops checking until
+   it is added here) *)
+Definition builtin_name_norm : namenorm_t := name_norm [
+  ("venezuelanbolívar", "venezuelanbolivar");
+  ("bolivianbolíviano", "bolivianboliviano")
+].
 Definition registration_matches_live : bool :=
   match GenUnits.base_currency with
   | None => true
   | Some b =>
-      match register_currencies pre_names pre_syms currency_data b with
+      match register_currencies builtin_name_norm pre_names pre_syms currency_data b with
       | POk st => Nat.eqb (List.length (rs_cash st)) (List.length live_cash)
                   && forallb same_unit (combine (rs_cash st) live_cash)
       | PRaise _ => false
@@ -55,8 +62,8 @@ Definition resolves_to (st : regstate) (ident : string) (c : cur) : bool :=
   | _ => false
   end.
 Definition builtin_reachable : bool :=
-  match register_currencies pre_names pre_syms currency_data default_base_currency with
-  | POk st => forallb (fun c => resolves_to st (c_sym c) c || resolves_to st (c_name c) c) currency_data
+  match register_currencies builtin_name_norm pre_names pre_syms currency_data default_base_currency with
+  | POk st => forallb (fun c => resolves_to st (c_sym c) c || resolves_to st (builtin_name_norm (c_name c)) c) currency_data
   | PRaise _ => false
   end.
 Lemma builtin_reachable_true : builtin_reachable = true.
